@@ -46,6 +46,44 @@ Proof.
     destruct it as [[round tx] r]. unfold cs_step. apply cs_c01_update; assumption.
 Qed.
 
+(* with the strict IsHash (the code as repaired): every reachable transaction conserves the supply *)
+Lemma cs_c01_update_reachable : forall cfg st round tx r,
+    cfg_strict_ids cfg = true -> cs_canon_accts (st_accts st) -> cs_reachable_txn cfg tx r ->
+    cs_total (st_accts (cs_post st (cs_update_state cfg st round tx r))) = cs_total (st_accts st).
+Proof.
+  intros cfg st round tx r S Cs R. rewrite cs_update_state_reachable_eq by assumption.
+  apply cs_c01_update_ideal.
+Qed.
+
+Lemma cs_c01_history_reachable : forall cfg h st,
+    cfg_strict_ids cfg = true -> cs_canon_accts (st_accts st) -> Forall (cs_reachable_item cfg) h ->
+    cs_total (st_accts (cs_run cfg st h)) = cs_total (st_accts st) /\
+    cs_canon_accts (st_accts (cs_run cfg st h)).
+Proof.
+  intros cfg h. unfold cs_run. induction h as [|it tl IH]; intros st S Cs Hh; cbn [fold_left].
+  - split; [reflexivity|exact Cs].
+  - inversion Hh; subst.
+    destruct (IH (cs_step cfg st it) S) as (T & C); [apply cs_step_reachable_canon; assumption|assumption|].
+    split; [|exact C]. rewrite T.
+    destruct it as [[round tx] r]. unfold cs_step. apply cs_c01_update_reachable; assumption.
+Qed.
+
+(* an upper-case destination is refused: the transaction is not applied and nothing changes *)
+Lemma cs_c01_uppercase_send_rejected : forall cfg st round tx r,
+    cfg_strict_ids cfg = true -> tx_type tx = TSend -> cs_upper_base <= tx_to tx ->
+    cs_is_applied (cs_update_state cfg st round tx r) = false /\
+    cs_post st (cs_update_state cfg st round tx r) = st.
+Proof.
+  intros cfg st round tx r S TY UP.
+  assert (NA : cs_is_applied (cs_update_state cfg st round tx r) = false).
+  { unfold cs_update_state.
+    destruct (cs_update_ideal cfg st round tx r) as [st' s o e| |] eqn:E; try reflexivity.
+    apply cs_update_ideal_applied_hash in E. destruct E as (_ & HT).
+    pose proof (cs_is_hash_strict cfg _ S (HT TY)) as C. unfold cs_canon_id in C. lia. }
+  split; [exact NA|].
+  destruct (cs_update_state cfg st round tx r); cbn in *; [discriminate|reflexivity|reflexivity].
+Qed.
+
 (* the full statement (no restriction on ids) and its refutation: a send to the upper-case
    spelling of an existing account's id destroys the amount *)
 Definition cs_c01_full_statement : Prop :=
@@ -159,6 +197,27 @@ Proof.
 Qed.
 
 (* the supply stays MaxTokenSupply on every state reachable from a genesis distribution *)
+Lemma cs_c01_reachable_supply_strict : forall gs m cfg nodes h,
+    cfg_strict_ids cfg = true ->
+    NoDup (cs_gen_ids gs) -> cs_genesis gs = Some m ->
+    cs_canon_accts m -> Forall (cs_reachable_item cfg) h ->
+    cs_total (st_accts (cs_run cfg {| st_accts := m; st_nodes := nodes |} h)) = cs_max_supply.
+Proof.
+  intros gs m cfg nodes h S ND G C H.
+  destruct (cs_c01_history_reachable cfg h {| st_accts := m; st_nodes := nodes |} S C H) as (T & _).
+  rewrite T. cbn [st_accts]. eapply cs_c01_genesis; eauto.
+Qed.
+
+(* the residue: AddSignedTransfer does not look at the destination, so a contract that signs a
+   transfer to the other-case spelling of an existing id still loses the credit, strict IsHash or
+   not (this is why [cs_accepted] asks it of signed transfers as a premise) *)
+Definition cs_c01_strict_cfg := {| cfg_fee := true; cfg_events := false; cfg_miner := 0; cfg_strict_ids := true |}.
+Lemma cs_c01_signed_residue :
+  let tx := {| tx_hash := 0; tx_type := TSC; tx_from := 3; tx_to := 1; tx_value := 0; tx_fee := 0; tx_nonce := 1 |} in
+  let r := SCOk [] [] [Build_cs_transfer 3 (cs_upper_base + 4) 100] [] 0 in
+  cs_total (st_accts (cs_post cs_c01_witness_state (cs_update_state cs_c01_strict_cfg cs_c01_witness_state 7 tx r))) = 1900.
+Proof. vm_compute. reflexivity. Qed.
+
 Lemma cs_c01_reachable_supply : forall gs m cfg nodes h,
     NoDup (cs_gen_ids gs) -> cs_genesis gs = Some m ->
     cs_canon_accts m -> Forall (cs_canon_item cfg) h ->
